@@ -59,7 +59,15 @@ pub(crate) mod rt {
         }));
         match r {
             Ok(n) => Ok(n),
-            Err(e) => Err(crate::harness::panic_text(e)),
+            Err(e) => {
+                let t = crate::harness::panic_text(e);
+                // PCT refuses programs whose first (oldest-task-first) execution had no
+                // scheduling choice at all: nothing to explore, not a failure
+                if t.contains("did not exercise any concurrency") {
+                    return Ok(0);
+                }
+                Err(t)
+            }
         }
     }
 }
